@@ -340,42 +340,61 @@ func (x *searcher) replCallbackProtocol(r *vlib.Run) {
 // output lines exactly once ----
 
 func (x *searcher) doubleRunLines(r *vlib.Run) {
-	files := map[string]string{
-		"dawn.toml":  "name = \"p\"\n",
-		"BUILD.dawn": "def _t(t):\n    say(\"line one\\npartial\")\ntarget(name=\"t\", function=_t, always=True)\n",
-	}
-	var runs [][]string
-	x.withRoot(func(root string) {
-		writeTree(root, files)
-		rec := newRecorder()
-		be := &bodyEnv{root: root, fail: map[string]bool{}}
-		proj, err := dawn.Load(root, &dawn.LoadOptions{Events: rec, Builtins: be.builtins()})
-		if err != nil {
-			vlib.Fatalf("double-run project does not load: %v", err)
+	for _, failing := range []bool{false, true} {
+		body := "def _t(t):\n    say(\"line one\\npartial\")\n"
+		if failing {
+			// the body fails after its output (a compiler's error message without a final newline)
+			body += "    step(\"t\")\n"
 		}
-		l, _ := label.Parse("//:t")
-		for i := 0; i < 3; i++ {
-			rec.mu.Lock()
-			rec.ev = nil
-			rec.mu.Unlock()
-			if err := proj.Run(l, nil); err != nil {
-				vlib.Fatalf("double-run project does not build: %v", err)
+		files := map[string]string{
+			"dawn.toml":  "name = \"p\"\n",
+			"BUILD.dawn": body + "target(name=\"t\", function=_t, always=True)\n",
+		}
+		var runs [][]string
+		var afterFailed bool
+		x.withRoot(func(root string) {
+			writeTree(root, files)
+			rec := newRecorder()
+			be := &bodyEnv{root: root, fail: map[string]bool{"t": failing}}
+			proj, err := dawn.Load(root, &dawn.LoadOptions{Events: rec, Builtins: be.builtins()})
+			if err != nil {
+				vlib.Fatalf("double-run project does not load: %v", err)
 			}
-			var lines []string
-			for _, e := range rec.ev {
-				if e.Kind == "Print" && e.Label == "//:t" {
-					lines = append(lines, e.Line)
+			l, _ := label.Parse("//:t")
+			for i := 0; i < 3; i++ {
+				rec.mu.Lock()
+				rec.ev = nil
+				rec.mu.Unlock()
+				if err := proj.Run(l, nil); (err != nil) != failing {
+					vlib.Fatalf("double-run project: build error %v, failing body %v", err, failing)
 				}
+				var lines []string
+				done := false
+				for _, e := range rec.ev {
+					if e.Label != "//:t" {
+						continue
+					}
+					switch e.Kind {
+					case "Print":
+						lines = append(lines, e.Line)
+						afterFailed = afterFailed || done
+					case "Failed", "Succeeded":
+						done = true
+					}
+				}
+				runs = append(runs, lines)
 			}
-			runs = append(runs, lines)
+		})
+		r.Add("double_run_builds", int64(len(runs)))
+		for i, lines := range runs {
+			if strings.Join(lines, "|") != "line one|partial" {
+				x.r.Violation("C18:lines:stale-partial-line-on-reused-project", fmt.Sprintf("build %d on one loaded Project delivered the lines %q for a body (failing afterwards: %v) that writes \"line one\\npartial\"", i+1, lines, failing),
+					map[string]any{"files": files, "lines_per_build": runs, "body_fails_after_output": failing})
+				break
+			}
 		}
-	})
-	r.Add("double_run_builds", int64(len(runs)))
-	for i, lines := range runs {
-		if strings.Join(lines, "|") != "line one|partial" {
-			x.r.Violation("C18:lines:stale-partial-line-on-reused-project", fmt.Sprintf("build %d on one loaded Project delivered the lines %q for a body that writes \"line one\\npartial\"", i+1, lines),
-				map[string]any{"files": files, "lines_per_build": runs})
-			break
+		if afterFailed {
+			x.r.Violation("C18:lines:output-after-completion", "a line of a target's output was delivered after its Succeeded/Failed event", map[string]any{"files": files, "lines_per_build": runs})
 		}
 	}
 }
